@@ -1167,4 +1167,195 @@ Section NewIsDefine.
     - rewrite heap_set_same. reflexivity.
     - rewrite heap_set_other_obj by exact constsobj_not_c. rewrite heap_set_same. reflexivity.
   Qed.
+
+  (* ---------------------------------------------------------------- the Constants of the class *)
+
+  Lemma const_check v : (match v with POther _ _ => false | _ => true end) = true ->
+    forall h,
+    (py_or (Ok (py_isinstance (deref h v) [K_int])) (fun _ => py_or (Ok (py_isinstance (deref h v) [K_str]))
+       (fun _ => py_or (Ok (py_isinstance (deref h v) [K_bool])) (fun _ => py_or (Ok (match v with PEnum _ _ _ => true | _ => false end))
+          (fun _ => Ok (py_isinstance (deref h v) [K_float])))))) = Ok (const_type_ok v).
+  Proof. intros Hv h. destruct v as [| |[| |]| | | | | | | | |]; try discriminate; reflexivity. Qed.
+
+  Definition consts_inv (h hcur : heap) (acc : list (pystr * pyval)) : Prop :=
+    (forall o a, pystr_eqb a n_dict_content = false \/ o <> constsobj -> hcur o a = h o a) /\
+    hcur constsobj n_dict_content = Some (PDict (skeys acc)).
+
+  (* one field of the class, as the loop sees it: the object getattr finds, and the member it is *)
+  Definition field_seen (h : heap) (p : pystr * (pystr * member)) : Prop :=
+    let '(n, (o, m)) := p in
+    h c n = Some (ref o) /\ h o (ia "Constant") = Some (PBool (is_const m)) /\
+    forall v, m = MConst v -> h o (s2p "_val") = Some v /\ (match v with POther _ _ => false | _ => true end) = true.
+
+  Lemma setitem_obj_consts hcur acc n v :
+    hcur constsobj n_dict_content = Some (PDict (skeys acc)) -> ~ In n (map fst acc) ->
+    dv_setitem_obj hcur (ref constsobj) (PStr n) v =
+    Ok (heap_set hcur constsobj n_dict_content (PDict (skeys (acc ++ [(n, v)])))).
+  Proof.
+    intros H Hn. unfold dv_setitem_obj, ref. rewrite pystr_eqb_refl, H. rewrite setitem_skeys. cbn [bind].
+    rewrite alist_set_absent by exact Hn. reflexivity.
+  Qed.
+
+  Lemma new_constants_loop_gen (BODY : heap -> pyval -> res heap) h :
+    h c (s2p "_constants") = Some (ref constsobj) ->
+    (forall hcur acc n o m, consts_inv h hcur acc -> field_seen h (n, (o, m)) -> ~ In n (map fst acc) ->
+       BODY hcur (PStr n) =
+       match m with
+       | MConst v => if const_type_ok v then Ok (heap_set hcur constsobj n_dict_content (PDict (skeys (acc ++ [(n, v)]))))
+                     else Raise TypeError
+       | MField _ => Ok hcur
+       end) ->
+    forall Pl acc hcur, consts_inv h hcur acc -> Forall (field_seen h) Pl -> NoDup (map fst acc ++ map fst Pl) ->
+      let ML := map (fun p => (fst p, snd (snd p))) Pl in
+      if forallb (fun nv => const_type_ok (snd nv)) (constants_of ML)
+      then exists h', py_foldM BODY (v_strs (map fst Pl)) hcur = Ok h' /\ consts_inv h h' (acc ++ constants_of ML)
+      else py_foldM BODY (v_strs (map fst Pl)) hcur = Raise TypeError.
+  Proof.
+    intros Hcc Hbody. induction Pl as [|[n [o m]] t IH]; intros acc hcur Hinv Hall Hnd2; cbn zeta.
+    - cbn [map constants_of flat_map forallb v_strs py_foldM]. exists hcur. rewrite app_nil_r. split; [reflexivity|exact Hinv].
+    - inversion Hall as [|? ? Hseen Hrest]; subst. cbn [map fst snd v_strs py_foldM].
+      assert (Hn : ~ In n (map fst acc)).
+      { intro Hin. cbn [map fst] in Hnd2. apply NoDup_remove_2 in Hnd2. apply Hnd2. apply in_or_app. left. exact Hin. }
+      rewrite (Hbody hcur acc n o m Hinv Hseen Hn). unfold constants_of. cbn [flat_map fst snd]. fold (constants_of (map (fun p => (fst p, snd (snd p))) t)).
+      destruct m as [fo|v].
+      + cbn [app bind]. apply (IH acc hcur Hinv Hrest).
+        cbn [map fst] in Hnd2. apply NoDup_remove_1 in Hnd2. exact Hnd2.
+      + cbn [app forallb snd]. destruct (const_type_ok v); cbn [andb bind]; [|reflexivity].
+        specialize (IH (acc ++ [(n, v)]) (heap_set hcur constsobj n_dict_content (PDict (skeys (acc ++ [(n, v)]))))).
+        match goal with |- context [acc ++ (n, v) :: constants_of ?r] =>
+          replace (acc ++ (n, v) :: constants_of r) with ((acc ++ [(n, v)]) ++ constants_of r) by (rewrite <- app_assoc; reflexivity) end.
+        apply IH.
+        * destruct Hinv as [I1 I2]. split; [|apply heap_set_same].
+          intros o' a' Hoa. destruct Hoa as [Ha|Ho].
+          -- rewrite heap_set_other_attr by (intro; subst a'; rewrite pystr_eqb_refl in Ha; discriminate). apply I1. left. exact Ha.
+          -- rewrite heap_set_other_obj by exact Ho. apply I1. right. exact Ho.
+        * exact Hrest.
+        * rewrite map_app. cbn [map fst]. rewrite <- app_assoc. exact Hnd2.
+  Qed.
+
+  Lemma In_alist_set {A} (l : list (pystr * A)) k w n v : In (n, v) (alist_set l k w) -> (n, v) = (k, w) \/ In (n, v) l.
+  Proof.
+    induction l as [|[k' x] t IH]; cbn [alist_set In]; [intros [H|[]]; left; symmetry; exact H|].
+    destruct (pystr_eqb k' k) eqn:E; cbn [In].
+    - apply pystr_eqb_spec in E. subst k'. intros [H|H]; [left; symmetry; exact H|right; right; exact H].
+    - intros [H|H]; [right; left; exact H|]. destruct (IH H) as [H'|H']; [left; exact H'|right; right; exact H'].
+  Qed.
+
+  Lemma mro_fold_In {A} (F : pystr -> pystr * member -> A) gg l n v :
+    In (n, v) (mro_fold F gg l) -> exists x nm, In x l /\ In nm (own_of gg x) /\ fst nm = n /\ v = F x nm.
+  Proof.
+    unfold mro_fold. intro H.
+    assert (Hgen : forall l' acc, In (n, v) (fold_left (fun acc c0 => alist_merge acc (map (fun nm => (fst nm, F c0 nm)) (own_of gg c0))) l' acc) ->
+              In (n, v) acc \/ exists x nm, In x l' /\ In nm (own_of gg x) /\ fst nm = n /\ v = F x nm).
+    { induction l' as [|x t IH]; intros acc Hin; [left; exact Hin|]. cbn [fold_left] in Hin.
+      destruct (IH _ Hin) as [Ha|[y [nm [Hy Hr]]]]; [|right; exists y, nm; split; [right; exact Hy|exact Hr]].
+      assert (Hm : forall new acc0, In (n, v) (alist_merge acc0 new) -> In (n, v) acc0 \/ In (n, v) new).
+      { unfold alist_merge. induction new as [|[k w] tn IHn]; intros acc0 Hi; [left; exact Hi|]. cbn [fold_left fst snd] in Hi.
+        destruct (IHn _ Hi) as [H1|H1]; [|right; right; exact H1].
+        destruct (In_alist_set _ _ _ _ _ H1) as [H2|H2]; [right; left; symmetry; exact H2|left; exact H2]. }
+      destruct (Hm _ _ Ha) as [H1|H1]; [left; exact H1|]. right. apply in_map_iff in H1 as [nm [E Hnm]]. inversion E; subst.
+      exists x, nm. split; [left; reflexivity|]. split; [exact Hnm|]. split; reflexivity. }
+    destruct (Hgen _ _ H) as [[]|[x [nm [Hx Hr]]]]. exists x, nm. split; [apply in_rev; exact Hx|exact Hr].
+  Qed.
+
+  Lemma mro_fold_NoDup {A} (F : pystr -> pystr * member -> A) gg l : NoDup (map fst (mro_fold F gg l)).
+  Proof.
+    unfold mro_fold. assert (H : NoDup (map fst (@nil (pystr * A)))) by constructor. revert H. generalize (@nil (pystr * A)).
+    induction (rev l) as [|x t IH]; intros acc H; [exact H|]. cbn [fold_left]. apply IH. apply alist_merge_NoDup. exact H.
+  Qed.
+
+  (* the model's k_all is the fold over the MRO of the new class *)
+  Lemma all_fields_fold own tail : ~ In c tail ->
+    all_fields g tail own = mro_fold (fun _ nm => snd nm) (kc (c :: tail) own :: g) (c :: tail).
+  Proof.
+    intro H. rewrite (mro_fold_cons _ (c :: tail) own tail H). unfold all_fields. rewrite fields_of_mro_fold.
+    unfold update_members, alist_merge. generalize (mro_fold (fun (_ : pystr) (nm : pystr * member) => snd nm) g tail).
+    induction own as [|[n m] t IH]; intro acc; [reflexivity|]. cbn [map fold_left fst snd]. apply IH.
+  Qed.
+
+  Hypothesis Hconst_plain_pre : forall n t o, ~ In (n, MConst (POther t o)) pre.
+  Hypothesis Hconst_plain_env : forall x n t o, ~ In (n, MConst (POther t o)) (own_of g x).
+
+  Lemma mro_plain_kc own tail : same_members own -> existsb bad_field_name names = false ->
+    mro_plain (kc (c :: tail) own :: g) (c :: tail) = true.
+  Proof.
+    intros Hs Hgood. unfold mro_plain. apply forallb_forall. intros x _. rewrite find_klass_kc. destruct (pystr_eqb c x).
+    - unfold own_plain. cbn [kc k_own]. rewrite Hs. apply andb_true_iff. split; [|apply negb_true_iff; apply NoDup_has_dup_false; exact Hnd].
+      apply forallb_forall. intros n Hn. destruct (name_facts n Hn Hgood Hnames_plain) as [F1 [F2 F3]].
+      destruct (good_name_plain n F1 F2 F3) as [G1 _]. rewrite F3, G1. reflexivity.
+    - destruct (find_klass g x) as [kx|] eqn:Hk; [|reflexivity]. apply (Hg_members x kx Hk).
+  Qed.
+
+  Lemma new_constants_loop own an h tail :
+    cheap (c :: tail) own an h -> same_members own -> ~ In c tail -> existsb bad_field_name names = false ->
+    mapM (apply_member re_match e defs) pre = Ok own ->
+    h c (s2p "_constants") = Some (ref constsobj) -> h constsobj n_dict_content = Some (PDict (skeys [])) ->
+    let consts := constants_of (all_fields g tail own) in
+    if forallb (fun nv => const_type_ok (snd nv)) consts
+    then exists h', StructMeta_new__for_fname so X h (ref c) = Ok h' /\ consts_inv h h' consts
+    else StructMeta_new__for_fname so X h (ref c) = Raise TypeError.
+  Proof.
+    intros C Hs Hnc Hgood Hown Hcc Hcd. cbn zeta. set (mro := c :: tail). set (gg := kc mro own :: g).
+    destruct C as [M Hann Hget]. pose proof (agree_env_view _ _ _ _ (mh_env _ _ _ _ _ M)) as Hev.
+    unfold StructMeta_new__for_fname.
+    rewrite (get_all_fields_by_name_gen so X h gd gg extra' c (kc mro own) Hev); [| unfold gg; rewrite find_klass_kc, pystr_eqb_refl; reflexivity | apply (mro_plain_kc own tail Hs Hgood)].
+    cbn [bind k_mro kc]. rewrite deref_dict. cbn [dv_iter bind].
+    set (L := v_fields_of_mro gg mro).
+    set (P := mro_fold (fun x nm => (member_obj x (fst nm), snd nm)) gg mro).
+    assert (EL : L = map (fun p => (fst p, ref (fst (snd p)))) P).
+    { unfold L, P, v_fields_of_mro. rewrite (mro_fold_map (fun om : pystr * member => ref (fst om))). reflexivity. }
+    assert (EM : all_fields g tail own = map (fun p => (fst p, snd (snd p))) P).
+    { unfold P. rewrite (mro_fold_map (fun om : pystr * member => snd om)). apply (all_fields_fold own tail Hnc). }
+    assert (Ekeys : map fst (skeys L) = v_strs (map fst P)).
+    { rewrite EL. unfold skeys, v_strs. rewrite !map_map. reflexivity. }
+    rewrite Ekeys, EM.
+    match goal with |- context [@dv_foldM ?S ?F] => set (BODY := F) end. unfold dv_foldM.
+    assert (HP_nodup : NoDup (map fst P)) by apply mro_fold_NoDup.
+    assert (Hseen : Forall (field_seen h) P).
+    { apply Forall_forall. intros [n [o m]] Hin. destruct (mro_fold_In _ _ _ _ _ Hin) as [x [nm [Hx [Hnm [En Eo]]]]].
+      inversion Eo; subst o m. subst n. cbn [field_seen].
+      assert (HL : alist_get L (fst nm) = Some (ref (member_obj x (fst nm)))).
+      { apply In_alist_get_NoDup; [unfold L, v_fields_of_mro; apply mro_fold_NoDup|]. rewrite EL. apply in_map_iff.
+        exists (fst nm, (member_obj x (fst nm), snd nm)). split; [reflexivity|exact Hin]. }
+      split; [apply Hget; exact HL|].
+      destruct (pystr_eqb x c) eqn:Ex.
+      - apply pystr_eqb_spec in Ex. subst x. unfold gg in Hnm. rewrite own_of_kc_c in Hnm. destruct nm as [n m]. cbn [fst snd].
+        assert (Hg : alist_get own n = Some m) by (apply In_alist_get_NoDup; [rewrite Hs; exact Hnd|exact Hnm]).
+        fold (mobj n). split; [apply (mh_const _ _ _ _ _ M n m Hg)|]. intros v Hv. subst m. split; [apply (mh_val _ _ _ _ _ M n v Hg)|].
+        destruct (apply_members_shape pre own Hown) as [_ Hshape]. destruct (Hshape n _ Hg) as [m0 [Hg0 [_ Hv0]]].
+        specialize (Hv0 v eq_refl). subst m0. destruct v; try reflexivity. exfalso. apply (Hconst_plain_pre n tag repr). apply alist_get_In. exact Hg0.
+      - assert (Hxc : x <> c) by (intro; subst; rewrite pystr_eqb_refl in Ex; discriminate).
+        unfold gg in Hnm. rewrite own_of_kc in Hnm by exact Hxc. destruct nm as [n m]. cbn [fst snd].
+        assert (Hfk : exists kx, find_klass g x = Some kx) by (unfold own_of in Hnm; destruct (find_klass g x) as [kx|]; [exists kx; reflexivity|destruct Hnm]).
+        destruct Hfk as [kx Hkx]. destruct (mh_env_members _ _ _ _ _ M x kx n m Hkx Hnm) as [A B].
+        split; [exact A|]. intros v Hv. split; [apply (B v Hv)|]. subst m. destruct v; try reflexivity. exfalso. apply (Hconst_plain_env x n tag repr Hnm). }
+    assert (Hbody : forall hcur acc n o m, consts_inv h hcur acc -> field_seen h (n, (o, m)) -> ~ In n (map fst acc) ->
+              BODY hcur (PStr n) =
+              match m with
+              | MConst v => if const_type_ok v then Ok (heap_set hcur constsobj n_dict_content (PDict (skeys (acc ++ [(n, v)]))))
+                            else Raise TypeError
+              | MField _ => Ok hcur
+              end).
+    { intros hcur acc n o m [I1 I2] [S1 [S2 S3]] Hn. unfold BODY. cbn [bind]. unfold dv_getattr_dyn. rewrite !getattr_ref.
+      assert (R1 : hcur c n = Some (ref o)).
+      { rewrite I1; [exact S1|]. right. intro E. symmetry in E. exact (constsobj_not_c E). }
+      assert (R2 : hcur o (ia "Constant") = Some (PBool (is_const m))).
+      { rewrite I1; [exact S2|]. left. reflexivity. }
+      rewrite R1. cbn [bind]. rewrite isinstance_ref. fold (ia "Constant"). rewrite R2. cbn [py_truthy bind].
+      destruct m as [fo|v]; cbn [is_const bind]; [reflexivity|].
+      destruct (S3 v eq_refl) as [S4 S5].
+      assert (R3 : hcur o (s2p "_val") = Some v) by (rewrite I1; [exact S4|left; reflexivity]).
+      rewrite !getattr_ref, R3. cbn [bind]. rewrite (const_check v S5). cbn [py_not bind].
+      destruct (const_type_ok v); cbn [negb bind]; [|reflexivity].
+      rewrite ?getattr_ref, ?R1. cbn [bind]. rewrite ?getattr_ref, ?R3. cbn [bind].
+      assert (R4 : hcur c (s2p "_constants") = Some (ref constsobj)).
+      { rewrite I1; [exact Hcc|]. left. reflexivity. }
+      rewrite R4. cbn [bind]. rewrite (setitem_obj_consts hcur acc n v I2 Hn). reflexivity. }
+    pose proof (new_constants_loop_gen BODY h Hcc Hbody P [] h) as G. cbn zeta in G. cbn [app] in G.
+    assert (Hinv0 : consts_inv h h []) by (split; [intros; reflexivity|exact Hcd]).
+    specialize (G Hinv0 Hseen HP_nodup).
+    destruct (forallb (fun nv => const_type_ok (snd nv)) (constants_of (map (fun p => (fst p, snd (snd p))) P))).
+    - destruct G as [h' [G1 G2]]. exists h'. rewrite G1. split; [reflexivity|exact G2].
+    - rewrite G. reflexivity.
+  Qed.
 End NewIsDefine.
